@@ -44,7 +44,7 @@ def cases(tier):
                     out.append(dict(kind="col", n=n, m=m, dir=direction, mask=mask, method=method, bypass=False))
         out.append(dict(kind="col", n=n, m=m, dir="inc", mask=True, method="linear", bypass=True))
     for (n, m) in ([(3, 2)] if tier == "quick" else [(3, 2), (4, 3)]):
-        for variant in ("tz", "zt", "nd-target", "xarray-target", "dask", "bare-noname", "suffix"):
+        for variant in ("tz", "zt", "nd-target", "xarray-target", "dask", "bare-noname", "suffix", "axis-coordinate"):
             out.append(dict(kind="struct", n=n, m=m, variant=variant))
     return out
 
@@ -215,7 +215,19 @@ def case_struct(W, cfg):
     elif variant == "suffix":
         kw["suffix"] = "_on_rho"
         name = "phi_on_rho"
-    r = grid.transform(pda, "Z", target, target_data=tda, method="linear", mask_edges=True, **kw)
+    cols = ((phi0, th0, "inc"), (phi1, th1, "dec"))
+    if variant == "axis-coordinate":
+        # target_data omitted: the data are interpolated against the grid dataset's own coordinate of the axis
+        # (concrete: it is an index), onto symbolic levels given on a dimension of their own
+        zc = [float(x) for x in grid._ds["zc"].values]
+        target = xr.DataArray(lev, dims=["rho"])
+        newdim = "rho"
+        if W.sym:
+            pass
+        cols = ((phi0, zc, "inc"), (phi1, zc, "inc"))
+        r = grid.transform(pda, "Z", target, method="linear", mask_edges=True)
+    else:
+        r = grid.transform(pda, "Z", target, target_data=tda, method="linear", mask_edges=True, **kw)
     W.require("struct:dims:" + variant, set(r.dims) == {"t", newdim} and r.sizes[newdim] == m, "%s %s" % (r.dims, dict(r.sizes)))
     W.require("struct:name:" + variant, r.name == name, "result name %r, want %r" % (r.name, name))
     if variant == "dask":
@@ -224,7 +236,7 @@ def case_struct(W, cfg):
     if set(r.dims) != {"t", newdim}:
         return
     rr = r.transpose("t", newdim).data
-    for c, (p_, t_, d_) in enumerate(((phi0, th0, "inc"), (phi1, th1, "dec"))):
+    for c, (p_, t_, d_) in enumerate(cols):
         check_column(W, "struct:%s:col%d" % (variant, c), list(rr[c]), list(p_), list(t_), list(levs[c]), True, d_, "linear")
         if W.sym:
             other = "phi%d" % (1 - c)
